@@ -26,6 +26,7 @@ pub fn def() -> CheckDef {
         assumptions: &["the check does not demand that the file shrinks, only that it stops growing from the second repetition on"],
         cpu_limit_s: 30,
         fault_kinds: "none (conservation invariant over the recorded history)",
+        count_subruns: false,
     }
 }
 
